@@ -145,12 +145,12 @@ func opsWorker(name string, res *core.Result, r *core.RNG, tier, out string) err
 }
 
 var requiredClasses = map[string][]string{
-	"slots":    {"dgram.report", "dgram.replay", "dgram.resigned-same-content", "outcome.changed", "slots.tour", "sched.burst"},
-	"weeks":    {"rotate.rotated", "stats.archived", "stats.live1", "stats.live2", "stats.future", "stats.misaligned", "stats.huge", "stats.false-negatives", "impact.round", "weeks.tour"},
+	"slots":    {"dgram.report", "dgram.replay", "dgram.resigned-same-content", "outcome.changed", "slots.tour", "sched.burst", "slots.capacity-boundary"},
+	"weeks":    {"rotate.rotated", "stats.archived", "stats.live1", "stats.live2", "stats.future", "stats.misaligned", "stats.huge", "stats.false-negatives", "impact.round", "impact.negative-zero", "weeks.tour"},
 	"restart":  {"restart", "restart.catchup", "restart.tour", "restart.write-fault-tour", "register.write-fault"},
 	"equip":    {"authorize.new", "authorize.duplicate", "authorize.bad-signature", "authorize.conflict-field", "authorize.conflict-other-key", "authorize.banned-id", "authorize.before-registration", "authorize.conflict-signed-zero", "equip.tour", "authorize.conflict-during-impact-job"},
 	"register": {"register.valid", "register.wrong-signer", "register.altered-key", "register.other-valid", "register.by-gca", "register.write-fault", "register.tour"},
-	"hostile":  {"dgram.hostile-random", "stats.misaligned", "hostile.tour", "peer.ban-reannounce"},
+	"hostile":  {"dgram.hostile-random", "stats.misaligned", "hostile.tour", "peer.ban-reannounce", "shutdown.idle-connections", "shutdown.http-partial-body"},
 	"crash":    {"crash.image", "crash.recovered", "restart"},
 }
 
